@@ -22,14 +22,15 @@ RULE = ("chains of 1..6 calls over a pool of 2..3 frames and 2 vectors (float, i
         "byte snapshot of every pool object, np.shares_memory of the result against every pool object, in-place poke of the result and of the operands; "
         "non-trivial = a call with a non-empty receiver that returned a new frame / vector")
 
-FRAME_METHODS = ["select", "unselect", "rename", "filter", "filter_col", "filter_out", "filter_tracked", "filter_out_tracked", "filter_owncol", "slice", "slice_cols", "slice_off", "head", "tail", "sample", "sort", "sort2",
-                 "unique", "drop_na", "count", "modify_vector", "modify_tracked", "modify_array", "modify_list", "modify_scalar", "modify_lambda", "modify_lambda_col",
+FRAME_METHODS = ["select", "unselect", "rename", "filter", "filter_col", "filter_out", "filter_tracked", "filter_out_tracked", "filter_owncol", "filter_helper", "filter_helper", "slice", "slice_cols", "slice_off", "head", "tail", "sample", "sort", "sort2",
+                 "unique", "drop_na", "count", "modify_vector", "modify_tracked", "from_pandas_tracked", "modify_array", "modify_list", "modify_scalar", "modify_lambda", "modify_lambda_col",
                  "cbind", "rbind", "rbind_self", "update", "anti_join", "semi_join", "inner_join", "left_join", "full_join", "compare", "group_by", "aggregate",
                  "modify_grouped", "split", "map", "deepcopy", "copy", "to_list_of_dicts", "to_json", "to_pandas", "to_arrow", "to_string",
                  "setitem", "delitem", "pop", "colnames"]
 VECTOR_METHODS = ["as_boolean", "as_float", "as_integer", "as_object", "as_string", "as_bytes", "as_date", "as_datetime", "concat", "concat_self", "drop_na",
                   "head", "tail", "is_na", "map", "range", "rank_min", "rank_max", "rank_ordinal", "replace_na", "sample", "sort", "sort_desc", "unique",
-                  "to_strings", "tolist", "equal", "copy", "get_memory_use"]
+                  "to_strings", "tolist", "equal", "copy", "get_memory_use", "helper", "helper"]
+HELPER_CALLS = ["all", "any", "count", "count_unique", "first", "last", "max", "mean", "median", "min", "mode", "nth", "quantile", "std", "sum", "var"]
 IN_PLACE = {"setitem", "delitem", "pop", "colnames"}
 
 
@@ -101,6 +102,23 @@ def gen_cases(ctx):
             steps = [{"on": "frame", "recv": rng.randint(0, 1), "m": m, "r": rng.randint(0, 10 ** 9)} for m in FRAME_METHODS[j:j + 2]]
             cases.append({"op": "chain", "frames": frames, "vectors": [{"kind": "objnan", "vals": vecgen.gen_vals(rng, "objnan", nrow)[:-1] + ["nan"]},
                                                                         {"kind": "objlist", "vals": vecgen.gen_vals(rng, "objlist", nrow)}], "steps": steps})
+    # every aggregation helper in its vector form on an UNSORTED vector of every kind (a helper that sorts or partitions in
+    # place shows only there), and inside the callables of filter / modify on a frame with such columns
+    for kind in ["int", "bool", "float", "date", "datetime", "timedelta", "str", "objint"]:
+        vals = [v for v in vecgen.POOLS[kind] if not vecgen.is_na_val(kind, v)][:5]
+        vals = (vals[::-1] + vals[1:2] + vals[:1])[:6] if len(vals) >= 2 else vals * 3
+        withna = vals[:3] + [[v for v in vecgen.POOLS[kind] if vecgen.is_na_val(kind, v)] or vals[:1]][0][:1] + vals[3:]
+        for chunk in range(0, len(HELPER_CALLS), 4):
+            steps = []
+            for j, h in enumerate(HELPER_CALLS[chunk:chunk + 4]):
+                for recv in (0, 1):
+                    steps.append({"on": "vector", "recv": recv, "m": "helper", "r": 1000 + j, "helper": h})
+            cases.append({"op": "chain", "frames": [{"n": len(vals), "cols": [{"name": "a", "kind": kind, "vals": vals}, {"name": "b", "kind": "int", "vals": list(range(len(vals)))[::-1]}]}],
+                          "vectors": [{"kind": kind, "vals": vals}, {"kind": kind, "vals": withna}], "steps": steps})
+    for kind in ["int", "bool", "float"]:
+        vals = [v for v in vecgen.POOLS[kind] if not vecgen.is_na_val(kind, v)][:5][::-1] * 2
+        cases.append({"op": "chain", "frames": [{"n": len(vals), "cols": [{"name": "a", "kind": kind, "vals": vals}]}], "vectors": [{"kind": kind, "vals": vals}, {"kind": kind, "vals": vals}],
+                      "steps": [{"on": "frame", "recv": 0, "m": "filter_helper", "r": r} for r in range(24)]})
     n = 400 if ctx.tier == "quick" else 6000
     for _ in range(n):
         cases.append(gen_case(rng, ctx.tier))
@@ -190,6 +208,7 @@ def pick_value(rng, kind_char, n):
     return {"b": True, "i": 7, "u": 7, "f": 2.5, "M": np.datetime64("2001-01-01"), "m": np.timedelta64(5, "s"), "U": "q", "T": "qq", "O": "obj"}.get(kind_char, 1)
 
 
+step_helper = [None]      # the helper a directed step names (None: drawn from the step's own rng)
 CALLBACK_SHARES = []
 CONVERSION_SHARES = []
 ARG_MUTATED = []
@@ -240,6 +259,19 @@ def call_frame(rng, df, m, pool):
         form = rng.choice(["column", "lambda"])
         out = df.filter(df[b], **{c: v}) if form == "column" else df.filter(lambda x: x[b], **{c: v})
         return f"filter[{form}]({b}, {c}=first)", out, []
+    if m == "filter_helper":
+        # the documented idiom `data.filter(lambda x: x.n > di.median(x.n))` / `modify(dev=lambda x: x.n - di.mean(x.n))`:
+        # the callable is handed the receiver; a helper summarising one of its columns must leave that column alone
+        num = [c for c in cols if df[c].dtype.kind in "iufb"]
+        if not num:
+            return "filter_helper(no numeric column)", None, []
+        c = rng.choice(num); h = rng.choice(["median", "mean", "max", "min", "quantile", "std", "sum", "mode", "first", "count_unique"])
+        f = (lambda col: di.quantile(col, 0.5)) if h == "quantile" else getattr(di, h)
+        if rng.random() < 0.5:
+            df.filter(lambda x: x[c] >= f(x[c]))
+        else:
+            df.modify(dev=lambda x: x[c] * 0 + (1 if f(x[c]) is not None else 0))
+        return f"filter/modify(lambda using di.{h}(x.{c}))", None, []
     if m == "filter_out":
         mask = np.array([rng.random() < 0.5 for _ in range(n)], dtype=bool); return "filter_out(mask)", df.filter_out(mask), []
     if m == "slice":
@@ -282,6 +314,29 @@ def call_frame(rng, df, m, pool):
         if isinstance(out, di.DataFrame) and any(np.shares_memory(col, arr) for col in out.values()):
             ARG_MUTATED.append(f"{form} of kind {kind} shared with the result of {how}")
         return f"{how}({nm}={form}:{kind})", out, []
+    if m == "from_pandas_tracked":
+        # a pandas frame the caller keeps (with a named index, a MultiIndex, or the default one) handed to from_pandas:
+        # the returned frame is new, the argument is as it was — columns, index, values
+        import pandas as pd
+        try:
+            pdf = df.to_pandas()
+        except Exception:
+            return "from_pandas(unconvertible)", None, []
+        form = rng.choice(["named-index", "set_index", "multi", "default"])
+        if form == "named-index":
+            pdf.index.name = "k"
+        elif form == "set_index" and len(pdf.columns) >= 2:
+            pdf = pdf.set_index(pdf.columns[0])
+        elif form == "multi" and len(pdf.columns) >= 3:
+            pdf = pdf.set_index(list(pdf.columns[:2]))
+        image = lambda: (list(map(str, pdf.columns)), list(pdf.index.names), repr(pdf.index.tolist()), repr(pdf.to_dict("list")), pdf.shape)
+        kept = image()
+        try:
+            out = di.DataFrame.from_pandas(pdf)
+        finally:
+            if image() != kept:
+                ARG_MUTATED.append(f"pandas frame ({form}) given to from_pandas: {kept[:2]} -> {image()[:2]}")
+        return f"from_pandas({form})", out, []
     if m == "modify_array":
         nm = newname(); return f"modify({nm}=ndarray)", df.modify(**{nm: np.arange(n, dtype=float)}), []
     if m == "modify_list":
@@ -369,6 +424,13 @@ def call_vector(rng, v, m, pool):
         k = rng.choice([0, 1, 3]); return f"{m}({k})", getattr(v, m)(k), []
     if m == "map":
         return "map(identity)", v.map(lambda x: x), []
+    if m == "helper":
+        # the aggregation helpers in their vector form (`di.median(data.x)`): summaries of the argument, which stays as it is
+        h = step_helper[0] or rng.choice(HELPER_CALLS)
+        kw = rng.choice([{}, {}, {"drop_na": True}, {"drop_na": False}]) if h not in ("all", "any") and not step_helper[0] else {}
+        args = {"nth": (rng.choice([0, 1, -1]),), "quantile": (rng.choice([0.25, 0.5, 0.9]),)}.get(h, ())
+        getattr(di, h)(v, *args, **kw)
+        return f"di.{h}(vector, {args}, {kw})", None, []
     if m.startswith("rank_"):
         return m, v.rank(method=m[5:]), []
     if m == "replace_na":
@@ -410,6 +472,7 @@ def impl(case):
         del CALLBACK_SHARES[:]
         del CONVERSION_SHARES[:]
         del ARG_MUTATED[:]
+        step_helper[0] = step.get("helper")
         try:
             if step["on"] == "frame":
                 ev["desc"], result, args = call_frame(rng, recv.obj, step["m"], pool)
@@ -483,10 +546,10 @@ def impl(case):
     return {"events": events, "initial_ncols": initial_ncols}
 
 
-TABLE_NAME = {"filter_col": "filter", "filter_tracked": "filter", "filter_out_tracked": "filter_out", "filter_owncol": "filter", "slice_cols": "slice", "sort2": "sort", "modify_vector": "modify", "modify_tracked": "modify", "modify_array": "modify", "modify_list": "modify",
+TABLE_NAME = {"filter_col": "filter", "filter_tracked": "filter", "filter_out_tracked": "filter_out", "filter_owncol": "filter", "slice_cols": "slice", "sort2": "sort", "modify_vector": "modify", "modify_tracked": "modify", "from_pandas_tracked": "modify", "modify_array": "modify", "modify_list": "modify",
               "modify_scalar": "modify", "modify_lambda": "modify", "modify_lambda_col": "modify", "modify_grouped": "modify", "rbind_self": "rbind",
               "concat_self": "concat", "rank_min": "rank", "rank_max": "rank", "rank_ordinal": "rank", "sort_desc": "sort"}
-NO_RESULT = {"split", "map", "to_list_of_dicts", "to_json", "to_pandas", "to_arrow", "to_string", "tolist", "equal", "get_memory_use"}
+NO_RESULT = {"split", "map", "to_list_of_dicts", "to_json", "to_pandas", "to_arrow", "to_string", "tolist", "equal", "get_memory_use", "helper", "filter_helper"}
 
 
 def model_steps(case, obs):
@@ -539,8 +602,8 @@ def judge(ctx, case, obs, mouts):
             who = "receiver" if sh["is_recv"] else "argument"
             ctx.violation("oracle", f"edit-observed-back:{m}:{who}", f"step {ev['step']} {ev.get('desc', m)}: an in-place edit of the {who} changed the result", case, ev)
         if ev.get("arg_mutated"):
-            what = "mask" if m.startswith("filter") else "array"
-            ctx.violation("oracle", f"mutates:{m}:argument:{what}", f"step {ev['step']} {ev.get('desc', m)}: the caller's own {'condition vector' if what == 'mask' else 'array'} was changed / shared ({ev['arg_mutated']})", case, ev)
+            what = "mask" if m.startswith("filter") else "pandas" if m.startswith("from_pandas") else "array"
+            ctx.violation("oracle", f"mutates:{m}:argument:{what}", f"step {ev['step']} {ev.get('desc', m)}: the caller's own {'condition vector' if what == 'mask' else 'pandas frame' if what == 'pandas' else 'array'} was changed / shared ({ev['arg_mutated']})", case, ev)
         if ev.get("conversion_shares"):
             ctx.violation("oracle", f"edit-observed:{m}:converted-object", f"step {ev['step']} {m}: an in-place edit of the frame changed the object {m}() had returned", case, ev)
         if ev.get("callback_shares"):
